@@ -19,6 +19,7 @@ Nothing here looks at praatIO's implementation for an expected value.  Knowledge
 only to give an already established mismatch a stable category string.
 """
 import contextlib
+import hashlib
 import io
 import itertools
 import json
@@ -66,7 +67,7 @@ class Acc:
         if res is SKIP:
             return
         if self.seen is not None:
-            h = hash(json.dumps(case, sort_keys=True, default=str))
+            h = hashlib.md5(json.dumps(case, sort_keys=True, default=str).encode()).digest()
             if h in self.seen:
                 return
             self.seen.add(h)
@@ -640,6 +641,11 @@ def t_c07_dec_rnd(acc, seed, count):
             E = rand_dec_intervals(rng, rng.randint(1, 6))
             bounds = [e[0] for e in E] + [e[1] for e in E]
             a, b = _rand_region(rng, bounds, 0.0, hi)
+            wide = [e for e in E if e[1] - e[0] > 0.01]
+            if wide and rng.random() < 0.35:  # a region strictly inside one interval: a straddler
+                e = rng.choice(wide)
+                a = round(rng.uniform(e[0] + 0.001, e[1] - 0.004), 3)
+                b = round(rng.uniform(a + 0.001, e[1] - 0.001), 3)
             case = {"k": "erase_i", "dec": 1, "E": E, "lo": 0.0, "hi": hi, "a": a, "b": b,
                     "mode": rng.choice(ERASE_MODES[:2]) if rng.random() < 0.9 else "error", "shrink": rng.random() < 0.7}
             run_min(acc, ev_erase_i, case)
@@ -1042,6 +1048,8 @@ def _check_shift(pre, kind, E, lo, hi, o, mode, call, tol=0.0, frac=False):
         return [("%s(%s): OutOfBounds although %s" % (pre, mode, "no entry leaves the old span" if mode == "error" else
                                                      "the mode is not 'error'"), kept, _exc(ex))]
     except Exception as ex:
+        if mode == "error" and leaving and isinstance(ex, PraatioError):
+            return []  # "an exception": the statement does not name its type
         if not kept and E and isinstance(ex, ValueError):
             return [("%s: %s when no entry remains after the shift" % (pre, type(ex).__name__), kept, _exc(ex))]
         return [("%s(%s): raises %s" % (pre, mode, type(ex).__name__), kept, _exc(ex))]
@@ -1125,8 +1133,8 @@ def ev_append(case):
             what = "%s: result is not the receiver's entries followed by the shifted entries of the argument" % pre
         out.append((what, exp, gE))
     xs = [alo, add(bhi)]
-    if not (same_num(got.minTimestamp, xs[0], tol) and same_num(got.maxTimestamp, xs[1], tol)):
-        out.append(("%s: span is not [receiver start, sum of both end times]" % pre, xs, [got.minTimestamp, got.maxTimestamp]))
+    if not same_num(got.maxTimestamp, xs[1], tol) or got.minTimestamp > alo + tol:
+        out.append(("%s: span does not end at the sum of both end times" % pre, xs, [got.minTimestamp, got.maxTimestamp]))
     return out
 
 
@@ -1157,7 +1165,7 @@ def ev_append_tg(case):
             where = "both" if (n in an and n in bn) else ("the receiver only" if n in an else "the argument only")
             out.append(("Textgrid.appendTextgrid: entries of a tier present in %s are not A's entries followed by B's "
                         "shifted by A's end time" % where, {n: ea + eb}, {n: gE}))
-    if got.minTimestamp != A["lo"] or got.maxTimestamp != ahi + B["hi"]:
+    if got.minTimestamp > A["lo"] or got.maxTimestamp != ahi + B["hi"]:
         out.append(("Textgrid.appendTextgrid: span does not end at the sum of both end times", [A["lo"], ahi + B["hi"]],
                     [got.minTimestamp, got.maxTimestamp]))
     return out
@@ -1243,9 +1251,12 @@ def t_c09_append_grid(acc, kind, npts, maxk, part, nparts):
         if i % nparts != part:
             continue
         for EB in tiers:
-            for (alo, ahi), (blo, bhi) in (((0.0, hi), (0.0, hi)), ((0.0, hi + U), (0.0, hi + 2 * U)), ((None, None), (None, None))):
+            for (alo, ahi), (blo, bhi) in (((0.0, hi), (0.0, hi)), ((0.0, hi + U), (0.0, hi + 2 * U)), ((None, None), (None, None)),
+                                           ((U, hi + U), (U, hi + 2 * U))):
                 if (alo is None and not EA) or (blo is None and not EB):
                     continue
+                if alo == U and ((EA and EA[0][0] < U) or (EB and EB[0][0] < U)):
+                    continue  # spans that start later than 0 need entries that do
                 case = {"k": "append", "t": kind, "A": {"E": EA, "lo": alo, "hi": ahi}, "B": {"E": EB, "lo": blo, "hi": bhi}}
                 acc.run(ev_append, case)
 
@@ -1348,7 +1359,7 @@ def run_c09(tier, seed, jobs):
              "points on %d grid points k/8 (empty tiers included) x spans {[0,H],[0,H+1/8],hull,[1/8,H]} x offsets k/8 for k in "
              "-%d..4 and -1/16, 1/16, -H+1/16 (none / some / all entries dropped or clipped) x {silence,warning,error}, stdout "
              "captured; +x then -x for every offset that clips nothing; appendTier on ALL ordered pairs of tiers with <= 2 "
-             "entries on %d grid points x 3 span settings (empty operands included), both tier types; appendTextgrid on all "
+             "entries on %d grid points x up to 4 span settings (span starts 0 and 1/8, hull; empty operands included), both tier types; appendTextgrid on all "
              "pairs of tier-name subsets A of {x,y,z}, B of {x,y,z,w} (equal, overlapping, disjoint, empty) x 8 content variants "
              "(some tiers empty, argument order reversed) x onlyMatchingNames {T,F}; Textgrid.editTimestamps on 16 name subsets x "
              "12 variants x 11 offsets x 3 modes; + %d random 3-decimal cases (shift / round trip / append); seed=%d"
@@ -1696,23 +1707,25 @@ def run_c11(tier, seed, jobs):
     t0 = time.time()
     thorough = tier == "thorough"
     depth_i, depth_p = (5, 6) if thorough else (4, 5)
+    if thorough:
+        depth_p = 5
     tasks = []
     for wide in (False, True):
         tasks += [("c11_exh", ("I", 4, depth_i, wide, p, 24)) for p in range(24)]
-        tasks += [("c11_exh", ("P", 4, depth_p, wide, p, 16)) for p in range(16)]
+        tasks += [("c11_exh", ("P", 5 if thorough else 4, depth_p, wide, p, 20 if thorough else 16)) for p in range(20 if thorough else 16)]
     nr = 160000 if thorough else 16000
     tasks += [("c11_hist_rnd", (seed * 1000 + 300 + i, nr // 16, 6)) for i in range(16)]
     tasks.append(("c11_slivers", (seed * 1000 + 350, 400 if thorough else 100)))
     driven = _drive(tasks, jobs)
     bound = ("step-by-step comparison with the list model: ALL histories of length <= %d (interval tier: 6 intervals on 4 grid "
              "points x {error,replace,merge} inserts with label x, reporting silence/warning alternating, + 6 deletes = 24 "
-             "operations per step) and length <= %d (point tier: 4 times x 3 modes + 4 deletes = 16 operations), each from an "
+             "operations per step) and length <= %d (point tier: %d times x 3 modes + deletes = %d operations), each from an "
              "empty tier spanning [1/8,2/8] (inserts leave the span) and [0,3/8], histories cut at their first violation; "
              "+ %d random histories of 1..6 steps on 17 grid points k/8 (30%% mapped to 3-decimal times), labels {a,b,c}, "
              "initial tiers of 0-4 entries, inserts disjoint / touching / overlapping one or several / containing / contained / "
              "outside the span, deletes of present and absent entries; + %d sliver cases (two same-label neighbours 1-4e-10 "
              "relative apart) reported under their own categories; collisionReportingMode 'error' is not exercised; seed=%d"
-             % (depth_i, depth_p, nr, 400 if thorough else 100, seed))
+             % (depth_i, depth_p, 5 if thorough else 4, 20 if thorough else 16, nr, 400 if thorough else 100, seed))
     return _result("C11: insertEntry (3 collision modes x silence/warning) and deleteEntry on IntervalTier and PointTier compared "
                    "after every step with a plain list model written from the property text (entries, order, span)", bound,
                    True, t0, driven)
@@ -2141,11 +2154,6 @@ def tg_compare(st, op, outcome, succ, tg, exc, ret):
         return [("%s: raises %s on a valid call" % (fn, type(exc).__name__), model_view(succ[0]), _exc(exc))], None
     for s in succ:
         if got == model_view(s):
-            if op[0] == "remove":
-                i = st["names"].index(op[1])
-                k = st["slots"][i]
-                if ret is None or [kind_of(ret), plain(ret.entries)] != [SLOTS[k][0], SLOTS[k][2]]:
-                    return [("removeTier: does not return the removed tier", SLOTS[k][2], None if ret is None else plain(ret.entries))], None
             return [], s
     x = model_view(succ[0])
     if got["names"] != x["names"] or got["order"] != x["order"]:
@@ -2243,7 +2251,7 @@ def _c12_graph(depth, jobs):
         if not frontier:
             break
         nstates += len(frontier)
-        nchunks = max(1, min(len(frontier), jobs * 4))
+        nchunks = max(1, min(len(frontier), 64))  # independent of `jobs`: same merge order
         chunks = [frontier[c::nchunks] for c in range(nchunks)]
         results = _pool_map(_c12_expand, chunks, jobs)
         allsucc = []
@@ -2321,8 +2329,10 @@ def ev_tgedit(case):
         for n in names:
             g = got.getTier(n)
             if (g.minTimestamp, g.maxTimestamp) != (got.minTimestamp, got.maxTimestamp):
-                out.append(("%s: a tier does not share the textgrid's span" % pre, [got.minTimestamp, got.maxTimestamp],
-                            {n: [g.minTimestamp, g.maxTimestamp]}))
+                what = "%s: a tier does not share the textgrid's span" % pre
+                if case.get("dec") and abs(g.minTimestamp - got.minTimestamp) <= TOL and abs(g.maxTimestamp - got.maxTimestamp) <= TOL:
+                    what += " (they differ by float rounding of the new end time, decimal timestamps; validate() is False)"
+                out.append((what, [got.minTimestamp, got.maxTimestamp], {n: [g.minTimestamp, g.maxTimestamp]}))
                 break
         try:
             ok = got.validate("silence")
@@ -2357,8 +2367,7 @@ def ev_tgmerge(case):
     gt = list(got.tiers)
     onames = [t["name"] for t in others]
     kept = [t for t in gt if t.name in onames]
-    if [t.name for t in kept] != onames or any(plain(k.entries) != plain(mk_tier(o["t"], o["E"]).entries if o["E"] else [])
-                                               for k, o in zip(kept, others)):
+    if [t.name for t in kept] != onames or any(plain(k.entries) != [list(e) for e in o["E"]] for k, o in zip(kept, others)):
         return [("Textgrid.mergeTiers: the tiers that are not merged are not preserved (preserveOtherTiers=%s)" % preserve,
                  onames, [t.name for t in gt])]
     merged = [t for t in gt if t.name not in onames]
@@ -2456,11 +2465,441 @@ def run_c12(tier, seed, jobs):
                    bound, True, t0, driven)
 
 
+# =========================================================================================
+# C13  copies never mutate; failed mutations change nothing; a failing save leaves the file alone
+# =========================================================================================
+
+
+def snap_tier(t):
+    return [type(t).__name__, t.name, [list(e) for e in t._entries], repr(t.minTimestamp), repr(t.maxTimestamp),
+            [type(v).__name__ for e in t._entries for v in e]]
+
+
+def snap_tg(tg):
+    return [list(tg.tierNames), [snap_tier(t) for t in tg.tiers], repr(tg.minTimestamp), repr(tg.maxTimestamp)]
+
+
+MUTATORS05 = ("insertEntry", "deleteEntry")
+QUERIES = ("find", "getNonEntries", "getValuesInIntervals", "getValuesAtPoints", "timestamps", "validate", "eq", "entries",
+           "len", "iter")
+
+
+def apply_query(pool, call):
+    tier = pool[call["on"]]
+    q, a = call["op"], call.get("args", [])
+    if q == "find":
+        return tier.find(a[0], a[1], a[2])
+    if q == "getNonEntries":
+        return tier.getNonEntries()
+    if q == "getValuesInIntervals":
+        return tier.getValuesInIntervals(call["_data"])
+    if q == "getValuesAtPoints":
+        return tier.getValuesAtPoints(call["_data"], a[1])
+    if q == "timestamps":
+        return tier.timestamps
+    if q == "validate":
+        return tier.validate(a[0])
+    if q == "eq":
+        return tier == pool[call["other"]]
+    if q == "entries":
+        return tier.entries
+    if q == "len":
+        return len(tier)
+    return [e for e in tier]
+
+
+def ev_nomut(case):
+    pool = {}
+    try:
+        for step in case["steps"]:
+            try:
+                apply05(pool, step)
+            except InvalidCase:
+                raise
+            except Exception:
+                pass  # a step that fails contributes nothing; the receivers are whatever the history produced
+        call = dict(case["call"])
+        if call["on"] not in pool or ("other" in call and call["other"] not in pool):
+            raise InvalidCase()
+    except InvalidCase:
+        return SKIP
+    op = call["op"]
+    cls = type(pool[call["on"]]).__name__
+    before = {k: snap_tier(t) for k, t in pool.items()}
+    data = None
+    if op in ("getValuesInIntervals", "getValuesAtPoints"):
+        data = [tuple(r) for r in call["args"][0]]
+        call["_data"] = data
+        data_before = list(data)
+    exc = None
+    try:
+        with _quiet():
+            if op in QUERIES:
+                apply_query(pool, call)
+            else:
+                apply05(pool, call)
+    except InvalidCase:
+        return SKIP
+    except Exception as ex:
+        exc = ex
+    out = []
+    for k, s in before.items():
+        now = snap_tier(pool[k])
+        if now == s:
+            continue
+        if k == call["on"]:
+            if op in MUTATORS05:
+                if exc is not None:
+                    out.append(("%s.%s raising %s: the tier is not exactly as before the call" % (cls, op, type(exc).__name__),
+                                s, now))
+                continue
+            out.append(("%s.%s: the receiver is changed by the call" % (cls, op), s, now))
+        elif k == call.get("other"):
+            out.append(("%s.%s: the argument tier is changed by the call" % (cls, op), s, now))
+        else:
+            out.append(("%s.%s: an unrelated tier is changed by the call" % (cls, op), s, now))
+    if data is not None and data != data_before:
+        out.append(("%s.%s: the data list passed in is changed by the call" % (cls, op), data_before, data))
+    return out
+
+
+def _gen_query(g, pool, rng):
+    on = rng.choice(list(pool.keys()))
+    tier = pool[on]
+    kind = kind_of(tier)
+    qs = ["find", "timestamps", "validate", "eq", "entries", "len", "iter"]
+    qs += ["getNonEntries", "getValuesInIntervals"] if kind == "I" else ["getValuesAtPoints"]
+    q = rng.choice(qs)
+    call = {"op": q, "on": on}
+    if q == "find":
+        call["args"] = [rng.choice(["a", "b", "", "x"]), rng.random() < 0.5, rng.random() < 0.3]
+    elif q == "validate":
+        call["args"] = [rng.choice(REPORT_MODES + ("bogus",))]
+    elif q == "eq":
+        call["other"] = rng.choice(list(pool.keys()))
+    elif q in ("getValuesInIntervals", "getValuesAtPoints"):
+        data = [[g.time(pool), rng.randint(0, 9)] for _ in range(rng.randint(0, 6))]
+        if rng.random() < 0.5:
+            data.sort()
+        call["args"] = [data, rng.random() < 0.5]
+    return call
+
+
+def _gen_failing_mutation(g, pool, rng):
+    on = rng.choice(list(pool.keys()))
+    tier = pool[on]
+    kind = kind_of(tier)
+    u = rng.random()
+    g.nid += 1
+    if tier.entries and u < 0.45:  # collision in error mode
+        x = list(rng.choice(tier.entries))
+        if kind == "I" and rng.random() < 0.5:
+            x[1] = x[1] + g.dur()
+        x[-1] = "new"
+        return {"op": "insertEntry", "on": on, "id": g.nid, "args": [x, "error", rng.choice(["silence", "warning"])],
+                "as": rng.choice(["named", "tuple", "list"])}
+    if u < 0.7:  # invalid option value
+        ent = [g.time(pool), g.time(pool) + 100.0, "n"] if kind == "I" else [g.time(pool), "n"]
+        bad_first = rng.random() < 0.5
+        return {"op": "insertEntry", "on": on, "id": g.nid,
+                "args": [ent, "bogus" if bad_first else rng.choice(INSERT_MODES), "silence" if bad_first else "bogus"], "as": "named"}
+    if u < 0.8 and kind == "I":  # not an interval
+        t = g.time(pool)
+        return {"op": "insertEntry", "on": on, "id": g.nid, "args": [[t, t, "n"], rng.choice(INSERT_MODES), "silence"], "as": "named"}
+    ent = list(rng.choice(tier.entries)) if tier.entries else ([1.0, 2.0, "a"] if kind == "I" else [1.0, "a"])
+    ent[-1] = ent[-1] + "?"  # missing entry
+    return {"op": "deleteEntry", "on": on, "id": g.nid, "args": [ent]}
+
+
+def t_c13_tiers_rnd(acc, seed, count):
+    rng = random.Random(seed)
+    for _ in range(count):
+        dec = rng.random() < 0.4
+        g = Gen05(rng, dec)
+        pool, steps = {}, []
+        first = g.construct("I" if rng.random() < 0.6 else "P")
+        for i in range(rng.randint(2, 6)):
+            st = first if i == 0 else (g.construct(first["t"]) if i == 1 else g.step(pool))
+            steps.append(st)
+            try:
+                with _quiet():
+                    apply05(pool, st)
+            except Exception:
+                pass
+        if not pool:
+            continue
+        u = rng.random()
+        if u < 0.25:
+            call = _gen_query(g, pool, rng)
+        elif u < 0.5:
+            call = _gen_failing_mutation(g, pool, rng)
+        else:
+            call = g.step(pool)
+            if call["op"] == "construct":
+                continue
+        case = {"k": "nomut", "dec": int(dec), "steps": steps, "call": call}
+        try:
+            res = ev_nomut(case)
+        except Exception as e:
+            res = [("harness: building the case or reading the result raised", "no exception", _exc(e))]
+        if res and res is not SKIP:
+            key = "min:" + res[0][0]
+            if acc.notes.get(key, 0) < 6:
+                acc.note(key)
+                case, res = minimise_steps(ev_nomut, case, res)
+        acc.add(case, res)
+
+
+# ---- textgrids -----------------------------------------------------------------------------
+
+SENTINEL = b"previous content of the destination file\n"
+_FILE_COUNTER = [0]
+
+
+def _tier_from_spec(ts, lo, hi):
+    return mk_tier(ts["t"], ts["E"], ts.get("lo", lo), ts.get("hi", hi), ts["name"])
+
+
+def ev_tgnomut(case):
+    spec, call = case["tg"], case["call"]
+    tg = build_tg(spec)
+    other = build_tg(case["other"]) if case.get("other") else None
+    b_tg, b_other = snap_tg(tg), (snap_tg(other) if other is not None else None)
+    fn, a = call[0], call[1:]
+    exc, path, file_after = None, None, None
+    try:
+        with _quiet():
+            if fn == "appendTextgrid":
+                tg.appendTextgrid(other, a[0])
+            elif fn == "eq":
+                tg == (other if other is not None else tg)
+            elif fn == "new":
+                tg.new()
+            elif fn == "tierNames":
+                tg.tierNames, tg.tiers, len(tg), [t for t in tg]
+            elif fn == "getTier":
+                tg.getTier(a[0])
+            elif fn == "save":
+                _FILE_COUNTER[0] += 1
+                path = os.path.join(_scratch(), "dest%d.TextGrid" % _FILE_COUNTER[0])
+                with open(path, "wb") as fd:
+                    fd.write(SENTINEL)
+                try:
+                    tg.save(path, a[0], a[1], a[2], a[3], a[4], a[5])
+                finally:
+                    with open(path, "rb") as fd:
+                        file_after = fd.read()
+                    os.remove(path)
+            else:
+                getattr(tg, fn)(*a)
+    except Exception as ex:
+        exc = ex
+    out = []
+    if snap_tg(tg) != b_tg:
+        out.append(("Textgrid.%s%s: the receiver is changed by the call" % (fn, " (raising)" if exc is not None else ""), b_tg,
+                    snap_tg(tg)))
+    if other is not None and snap_tg(other) != b_other:
+        out.append(("Textgrid.%s: the argument textgrid is changed by the call" % fn, b_other, snap_tg(other)))
+    if fn == "save" and exc is not None and file_after is not None and file_after != SENTINEL:
+        out.append(("Textgrid.save raising %s: the existing destination file is modified" % type(exc).__name__, SENTINEL,
+                    file_after[:80]))
+    return out
+
+
+def ev_tgfail(case):
+    spec, call, reason = case["tg"], case["call"], case["reason"]
+    tg = build_tg(spec)
+    fn = call[0]
+    arg_tier = None
+    before = snap_tg(tg)
+    try:
+        with _quiet():
+            if fn == "addTier":
+                arg_tier = _tier_from_spec(call[1], spec["lo"], spec["hi"])
+                b_arg = snap_tier(arg_tier)
+                tg.addTier(arg_tier, call[2], call[3])
+            elif fn == "removeTier":
+                tg.removeTier(call[1])
+            elif fn == "renameTier":
+                tg.renameTier(call[1], call[2])
+            else:
+                arg_tier = _tier_from_spec(call[2], spec["lo"], spec["hi"])
+                b_arg = snap_tier(arg_tier)
+                tg.replaceTier(call[1], arg_tier, call[3])
+    except Exception as ex:
+        out = []
+        after = snap_tg(tg)
+        if after != before:
+            detail = ""
+            if len(after[0]) < len(before[0]):
+                detail = " (a tier is lost)"
+            elif len(after[0]) > len(before[0]):
+                detail = " (the tier is stored although the call raised)"
+            elif after[0] != before[0] or after[1] != before[1]:
+                detail = " (a tier is swapped)"
+            out.append(("%s failing with %s: the textgrid is not exactly as before the call%s" % (fn, reason, detail), before,
+                        "%s; now %r" % (type(ex).__name__, after)))
+        if arg_tier is not None and snap_tier(arg_tier) != b_arg:
+            out.append(("%s failing with %s: the tier passed in is changed" % (fn, reason), b_arg, snap_tier(arg_tier)))
+        return out
+    return SKIP  # the call did not fail: all-or-nothing says nothing about it
+
+
+def _small_tg_specs():
+    """valid textgrids of 1-3 tiers on the grid, span [1/8, 1]"""
+    lo, hi = U, 8 * U
+    T = {"w": {"t": "I", "name": "w", "E": [[U, 2 * U, "a"], [3 * U, 5 * U, "b"]]},
+         "p": {"t": "P", "name": "p", "E": [[2 * U, "x"], [6 * U, "y"]]},
+         "e": {"t": "I", "name": "e", "E": []}}
+    out = []
+    for names in (("w",), ("w", "p"), ("p", "w"), ("w", "p", "e"), ("e", "w", "p"), ("p", "e", "w")):
+        out.append({"lo": lo, "hi": hi, "tiers": [T[n] for n in names]})
+    return out
+
+
+def t_c13_tgfail(acc):
+    for spec in _small_tg_specs():
+        names = [t["name"] for t in spec["tiers"]]
+        lo, hi = spec["lo"], spec["hi"]
+        fresh = {"t": "I", "name": "n", "E": [[2 * U, 3 * U, "q"]]}
+        wider = [dict(fresh, hi=hi + U), dict(fresh, lo=0.0), {"t": "P", "name": "n", "E": [[hi + U, "late"]]},
+                 {"t": "I", "name": "n", "E": [[0.0, U, "early"]]}]
+        idxs = [None] + list(range(-1, len(names) + 1))
+        for idx in idxs:
+            for mode in REPORT_MODES:
+                for n in names:
+                    clash = dict(fresh, name=n)
+                    acc.run(ev_tgfail, {"k": "tgfail", "tg": spec, "call": ["addTier", clash, idx, mode], "reason": "a name clash"})
+            for w in wider:
+                acc.run(ev_tgfail, {"k": "tgfail", "tg": spec, "call": ["addTier", w, idx, "error"],
+                                    "reason": "a span change under reportingMode='error'"})
+            acc.run(ev_tgfail, {"k": "tgfail", "tg": spec, "call": ["addTier", fresh, idx, "bogus"],
+                                "reason": "an invalid option value"})
+        for n in ("n", "", "W"):
+            acc.run(ev_tgfail, {"k": "tgfail", "tg": spec, "call": ["removeTier", n], "reason": "a missing name"})
+            acc.run(ev_tgfail, {"k": "tgfail", "tg": spec, "call": ["renameTier", n, "z"], "reason": "a missing name"})
+            for mode in REPORT_MODES:
+                acc.run(ev_tgfail, {"k": "tgfail", "tg": spec, "call": ["replaceTier", n, fresh, mode], "reason": "a missing name"})
+        for old in names:
+            for new in names:
+                if new != old:
+                    acc.run(ev_tgfail, {"k": "tgfail", "tg": spec, "call": ["renameTier", old, new], "reason": "a name clash"})
+                    for mode in REPORT_MODES:
+                        acc.run(ev_tgfail, {"k": "tgfail", "tg": spec, "call": ["replaceTier", old, dict(fresh, name=new), mode],
+                                            "reason": "a name clash"})
+            for w in wider:
+                for nm in ("n", old):
+                    acc.run(ev_tgfail, {"k": "tgfail", "tg": spec, "call": ["replaceTier", old, dict(w, name=nm), "error"],
+                                        "reason": "a span change under reportingMode='error'"})
+            acc.run(ev_tgfail, {"k": "tgfail", "tg": spec, "call": ["replaceTier", old, dict(fresh, name=old), "bogus"],
+                                "reason": "an invalid option value"})
+
+
+FORMATS = ("short_textgrid", "long_textgrid", "json", "textgrid_json")
+
+
+def t_c13_tgs_rnd(acc, seed, count):
+    rng = random.Random(seed)
+    for _ in range(count):
+        dec = rng.random() < 0.4
+        spec = _rand_tg(rng, dec)
+        hi = spec["hi"]
+        invalid = rng.random() < 0.25
+        if invalid:  # a tier whose span differs from the textgrid's: validate() False
+            t = rng.choice(spec["tiers"])
+            if rng.random() < 0.5:
+                t["hi"] = hi - (0.5 if dec else 2 * U) if not t["E"] else hi + 1.0
+            else:
+                t["lo"] = -1.0
+        bounds = [v for t in spec["tiers"] for e in t["E"] for v in e[:-1]] + [0.0, hi]
+
+        def tm():
+            if rng.random() < 0.5:
+                return rng.choice(bounds)
+            return round(rng.uniform(0, hi), 3) if dec else rng.randint(0, 16) * U
+
+        fn = rng.choice(["appendTextgrid", "crop", "eraseRegion", "editTimestamps", "insertSpace", "mergeTiers", "new", "validate",
+                         "eq", "tierNames", "getTier", "save", "save", "save"])
+        other = None
+        if fn in ("appendTextgrid", "eq"):
+            other = _rand_tg(rng, dec)
+            if rng.random() < 0.3:
+                other = json.loads(json.dumps(spec))
+        if fn == "appendTextgrid":
+            call = [fn, rng.random() < 0.5]
+        elif fn == "crop":
+            call = [fn, tm(), tm(), rng.choice(CROP_MODES + ("bogus",)), rng.random() < 0.5]
+        elif fn == "eraseRegion":
+            call = [fn, tm(), tm(), rng.random() < 0.5]
+        elif fn == "editTimestamps":
+            call = [fn, round(rng.uniform(-6, 4), 3) if dec else rng.randint(-12, 8) * U, rng.choice(REPORT_MODES + ("bogus",))]
+        elif fn == "insertSpace":
+            call = [fn, tm(), round(rng.uniform(0.001, 3), 3) if dec else rng.choice([U, 3 * U]), rng.choice(SPACE_MODES + ("bogus",))]
+        elif fn == "mergeTiers":
+            names = [t["name"] for t in spec["tiers"]]
+            call = [fn, None if rng.random() < 0.3 else [n for n in names if rng.random() < 0.6], rng.random() < 0.5]
+        elif fn == "validate":
+            call = [fn, rng.choice(REPORT_MODES + ("bogus",))]
+        elif fn == "getTier":
+            call = [fn, rng.choice([t["name"] for t in spec["tiers"]] + ["missing"])]
+        elif fn == "save":
+            u = rng.random()
+            fmt, mode, minT, maxT = rng.choice(FORMATS), rng.choice(["silence", "warning"]), None, None
+            if u < 0.2:
+                fmt = "bogus"
+            elif u < 0.3:
+                mode = "bogus"
+            elif u < 0.5:
+                mode = "error"  # raises when the textgrid is invalid
+            elif u < 0.65:
+                minT = tm() + (1.0 if rng.random() < 0.5 else 0.0)  # possibly later than the first entry
+            elif u < 0.8:
+                maxT = tm() / 2  # possibly earlier than the last entry
+            call = [fn, fmt, rng.random() < 0.5, minT, maxT, rng.choice([1e-8, None, 0.5]), mode]
+        else:
+            call = [fn]
+        case = {"k": "tgnomut", "tg": spec, "call": call}
+        if other is not None:
+            case["other"] = other
+        acc.run(ev_tgnomut, case)
+
+
+def run_c13(tier, seed, jobs):
+    t0 = time.time()
+    thorough = tier == "thorough"
+    nr = 320000 if thorough else 48000
+    ng = 160000 if thorough else 24000
+    tasks = [("c13_tiers_rnd", (seed * 1000 + 600 + i, nr // 32)) for i in range(32)]
+    tasks += [("c13_tgs_rnd", (seed * 1000 + 700 + i, ng // 16)) for i in range(16)]
+    tasks.append(("c13_tgfail", ()))
+    try:
+        driven = _drive(tasks, jobs)
+    finally:
+        _cleanup_scratch()
+    bound = ("snapshot (class, name, entries with value types, spans; for textgrids names, order, tiers, span) of every tier of "
+             "the pool before and after ONE call: %d random receivers reached by histories of 2-6 steps of C05's operation "
+             "universe (dyadic k/8 and 3-decimal times) x a call drawn from {crop, eraseRegion, insertSpace, editTimestamps, "
+             "union, difference, intersection, mergeLabels, morph, dejitter, appendTier, new} (50%%), the queries {find, "
+             "getNonEntries, getValuesInIntervals, getValuesAtPoints, timestamps, validate, ==, entries, len, iteration} (25%%), "
+             "and failing mutations (25%%: insertEntry colliding in 'error' mode, invalid collisionMode / "
+             "collisionReportingMode value, start=end entry, deleteEntry of a missing entry), success and exception paths; "
+             "%d random textgrids (1-4 tiers, 25%% invalid) x {appendTextgrid, crop, eraseRegion, editTimestamps, insertSpace, "
+             "mergeTiers, new, validate, ==, tierNames/tiers, getTier, save (4 formats; failing format / reportingMode values, "
+             "reportingMode='error' on invalid textgrids, min/max overrides inside the annotation; destination file pre-filled "
+             "under /verif/out/tmp and compared byte for byte after a raising save)}; failing addTier / removeTier / renameTier "
+             "/ replaceTier on 6 textgrids of 1-3 tiers x every name clash, missing name, span change under "
+             "reportingMode='error' (4 wider tiers), invalid option value x tierIndex None,-1..len; collisionReportingMode="
+             "'error' of insertEntry is outside the documented options and not exercised; seed=%d" % (nr, ng, seed))
+    return _result("C13: receiver and arguments unchanged by every copy-returning operation, query, validate and save; failing "
+                   "mutators leave the object exactly as before; a raising save leaves an existing destination file untouched",
+                   bound, False, t0, driven)
+
+
 # ==== REGISTRY ====
 TASKS = {n[2:]: f for n, f in list(globals().items()) if n.startswith("t_") and callable(f)}
 EVALS = {n[3:]: f for n, f in list(globals().items()) if n.startswith("ev_") and callable(f)}
 
-CHECKS = {"c07_erase": run_c07, "c08_insert_space": run_c08, "c09_shift_append": run_c09, "c11_list_model": run_c11, "c05_histories": run_c05, "c12_textgrid_model": run_c12}
+CHECKS = {"c07_erase": run_c07, "c08_insert_space": run_c08, "c09_shift_append": run_c09, "c11_list_model": run_c11, "c05_histories": run_c05, "c12_textgrid_model": run_c12, "c13_no_mutation": run_c13}
 
 
 def replay(case):
